@@ -63,6 +63,9 @@ func c17Check(k *fw.K, hdr [4]byte, nc, ne int, pattern int) {
 	}
 	exp := chipsim.ExpectedCase(nc, ne)
 	k.Count("cmd_case_" + exp)
+	if nc <= 3 || nc == 256 {
+		k.Sample("cmd-case-"+exp, map[string]any{"header": fmt.Sprintf("%x", hdr), "nc": nc, "ne": ne, "encoded": fmt.Sprintf("%x", enc[:min(len(enc), 16)])})
+	}
 	detail := func() map[string]any {
 		e := enc
 		if len(e) > 24 {
@@ -215,6 +218,9 @@ func runC17(c *fw.Ctx) {
 		}
 		k.Nontrivial(fmt.Sprintf("r|%d|%d", n, pat))
 		k.Count("rsp_parsed")
+		if n < 8 {
+			k.Sample("rsp", map[string]any{"bytes": fmt.Sprintf("%x", orig)})
+		}
 		if err != nil {
 			k.Violation("rapdu:rejected", fmt.Sprintf("response of %d bytes rejected: %v", n, err), det)
 			return
